@@ -41,6 +41,7 @@ ASSUMPTIONS = [
 ]
 HEADER = ('From Coq Require Import List ZArith Bool.\n'
           'From T4V Require Import C05.Model C05.Exec.\n'
+          'Import ListNotations.\n'
           'Open Scope Z_scope.\n')
 
 THEOREMS = ['C05_pot_transform_compl_untouched']
